@@ -1629,10 +1629,19 @@ async fn apply_assignment(
     // Read option before taking mutable borrow on env.
     let export_variables_on_modification = shell.options().export_variables_on_modification;
 
-    // See if we can find an existing value associated with the variable.
-    if let Some((existing_value_scope, existing_value)) =
+    // See if we can find an existing value associated with the variable. When the assignment
+    // must land in a particular scope (the one just pushed for a command's temporary
+    // assignments), only a binding in the current scope qualifies: a binding of the same
+    // kind further down belongs to an enclosing command and must not be touched.
+    let existing = if required_scope.is_some() {
+        shell
+            .env_mut()
+            .get_mut_in_current_scope(variable_name.as_str())
+    } else {
         shell.env_mut().get_mut(variable_name.as_str())
-    {
+    };
+
+    if let Some((existing_value_scope, existing_value)) = existing {
         if required_scope.is_none() || Some(existing_value_scope) == required_scope {
             if let Some(array_index) = array_index {
                 match new_value {
